@@ -109,7 +109,7 @@ def main():
              "serves_properties": [c["property_id"] for c in checks]},
         ],
         "checks": checks,
-        "notes": "Technique family: runtime monitoring and sanitizers. Verdicts are three-valued: exit 0 held on what was observed / exit 1 + VIOLATION line / exit 2 + INCONCLUSIVE line (harness error, watchdog, coverage floor not reached). hooks.add_only=false because hook H1 rewrites two cfg attributes on NUM_BLOCKS_PER_FILE (a const cannot be overridden additively); hook H2 is purely additive. Known findings: /verif/known_findings.json (6 defects repaired with fix: commits in /repo; kept as known findings: 2 dev-profile-only overflow panics of C10 and the embedded-frame finding of C08). Thorough tiers add: 128 MiB real-size leg (C01, C06), Miri + valgrind memcheck auxiliary legs (C05, C07, C10; reports make the run inconclusive), dense byte cuts (C02, C12), exhaustive in-memory alignment sweep (C07). Seeded defects used to validate the monitors: /verif/seeded/*/ (patch.diff, demo, meta.json), summary in /verif/seeded/RESULTS.md and DESIGN.md section 12.3.",
+        "notes": "Technique family: runtime monitoring and sanitizers. Verdicts are three-valued: exit 0 held on what was observed / exit 1 + VIOLATION line / exit 2 + INCONCLUSIVE line (harness error, watchdog, coverage floor not reached). hooks.add_only=false because hook H1 rewrites two cfg attributes on NUM_BLOCKS_PER_FILE (a const cannot be overridden additively); hook H2 is purely additive. Known findings: /verif/known_findings.json (6 defects repaired with fix: commits in /repo; kept as known findings: 2 dev-profile-only overflow panics of C10 and two format-level findings of C08 (embedded frame, block-copy splice)). Thorough tiers add: 128 MiB real-size leg (C01, C06), Miri + valgrind memcheck auxiliary legs (C05, C07, C10; reports make the run inconclusive), dense byte cuts (C02, C12), exhaustive in-memory alignment sweep (C07). Seeded defects used to validate the monitors: /verif/seeded/*/ (patch.diff, demo, meta.json), summary in /verif/seeded/RESULTS.md and DESIGN.md section 12.3.",
     }
     if na:
         m["not_applicable"] = na
